@@ -59,8 +59,10 @@ type vhLN struct {
 	StatusQ     int
 	InvoiceQ    int
 	InvoiceErrs int
-	WatcherLive bool
-	MaxScript   int
+	// the watcher goroutine RequestMintQuote starts is not part of the schedule (engine: go statements ignored)
+	QuietWatcher bool
+	WatcherLive  bool
+	MaxScript    int
 }
 
 func (l *vhLN) ConnectionStatus() error { return nil }
@@ -138,7 +140,9 @@ func (l *vhLN) FeeReserve(amount uint64) uint64 {
 	return r
 }
 func (l *vhLN) SubscribeInvoice(ctx context.Context, paymentHash string) (lightning.InvoiceSubscriptionClient, error) {
-	v.Yield("Client.SubscribeInvoice")
+	if !l.QuietWatcher {
+		v.Yield("Client.SubscribeInvoice")
+	}
 	return &vhSub{hash: paymentHash, live: l.WatcherLive}, nil
 }
 
